@@ -217,3 +217,53 @@ for d, fn, src in (('in', 'htp_connp_REQ_HEADERS', 'htp_request.c'), ('out', 'ht
                        'so an assembled header never exceeds cap - 1 + one line; beyond the cap the line is dropped (warning), never an overflow' % fn,
                    assumes=['bstr_add_mem replaced by a logging model; the pending header is a bare bstr header with symbolic len (its payload is never read on this path)',
                             'cfg->process_*_header replaced by a counting stub']))
+
+# ---- C18 / C01: ownership of the pending header line when the header block ends (and when a new header line arrives) ------------------
+PEND_H = r'''
+#ifndef VNATIVE
+void htp_log(htp_connp_t *connp, const char *file, int line, enum htp_log_level_t level, int code, const char *fmt, ...) { }
+#endif
+bstr *v_model_dup_mem(const void *data, size_t len) {
+  if (len > N) return NULL;
+  bstr *b = malloc(sizeof(bstr) + N); if (b == NULL) return NULL;
+  b->len = len; b->size = len; b->realptr = NULL;
+  for (size_t i = 0; i < N; i++) if (i < len) ((unsigned char *) b)[sizeof(bstr) + i] = ((const unsigned char *) data)[i];
+  return b; }
+bstr *v_model_add_mem(bstr *destination, const void *data, size_t len) { return destination; }
+static int pend_rc, pend_calls, pend_hdrs_rc;
+static htp_status_t stub_process_header(htp_connp_t *connp, unsigned char *data, size_t len) { pend_calls++; return pend_rc; }   /* fails e.g. when one of its allocations fails */
+htp_status_t v_stub_tx_headers(htp_tx_t *tx) { return pend_hdrs_rc; }
+typedef struct { unsigned char line[N]; size_t n; int rc; int hrc; unsigned char clen; } vin_t;
+void HARNESS(void) { VIN(vin_t);
+  /* the chunk: one complete line - the blank line that ends the header block, or a new (non-folded) header line - followed by nothing */
+  VASSUME(in.n >= 1 && in.n <= N && in.line[in.n - 1] == '\n');
+  for (size_t i = 0; i < N; i++) if (i + 1 < in.n) VASSUME(in.line[i] != '\n');
+  static htp_connp_t C; static htp_tx_t TX; static htp_cfg_t CFG;
+  htp_connp_t *c = &C; htp_tx_t *tx = &TX; htp_cfg_t *cfg = &CFG;
+  unsigned char *chunk = malloc(N); bstr *pend = malloc(sizeof(bstr) + 2);
+  if (!chunk || !pend) { free(chunk); free(pend); return; }
+  memcpy(chunk, in.line, N);
+  pend->len = 2; pend->size = 2; pend->realptr = NULL; ((unsigned char *) pend)[sizeof(bstr)] = 'a'; ((unsigned char *) pend)[sizeof(bstr) + 1] = ':';
+  cfg->field_limit_hard = 1000; cfg->server_personality = HTP_SERVER_GENERIC;
+  cfg->process_request_header = stub_process_header; cfg->process_response_header = stub_process_header;
+  tx->cfg = cfg; tx->connp = c; tx->request_progress = HTP_REQUEST_HEADERS; tx->response_progress = HTP_RESPONSE_HEADERS; tx->response_transfer_coding = HTP_CODING_NO_BODY;
+  c->cfg = cfg; c->DIR_tx = tx; c->DIR_status = HTP_STREAM_DATA; c->DIR_header = pend;
+  c->DIR_current_data = chunk; c->DIR_current_len = (int64_t) in.n;
+  pend_rc = in.rc; pend_hdrs_rc = in.hrc; pend_calls = 0;
+  htp_status_t rc = STATE_FN(c);
+  /* whatever happened - header processor refused, allocation failed, block finished - the pending line has exactly ONE owner: either the parser still
+     holds it (and htp_connp_destroy will free it), or it was released and the field is NULL / holds a NEW string.  The teardown below is what htp_connp_destroy does. */
+  if (c->DIR_header != NULL) { bstr_free(c->DIR_header); c->DIR_header = NULL; }          /* double free here = dangling DIR_header */
+  if (c->DIR_buf != NULL) free(c->DIR_buf);
+  free(chunk);
+  CANARY(); }'''
+for d, fn, src, txh in (('in', 'htp_connp_REQ_HEADERS', 'htp_request.c', 'htp_tx_state_request_headers'), ('out', 'htp_connp_RES_HEADERS', 'htp_response.c', 'htp_tx_state_response_headers')):
+    UNITS.append(U(name='%s_pending_header_owner' % fn, props=['C18', 'C01'], kind='bounded', src=[src], link=['htp_util.c', 'bstr.c', 'htp_hooks.c', 'htp_list.c'],
+                   pre='#define bstr_dup_mem v_model_dup_mem\n#define bstr_add_mem v_model_add_mem\n#define %s v_stub_tx_headers\n' % txh, harness=PEND_H.replace('DIR', d).replace('STATE_FN', fn),
+                   defs={'quick': {'N': 4}, 'thorough': {'N': 6}}, min_obl=30, timeout=(600, 2400),
+                   flags_add=['--unwind', '10', '--unwinding-assertions', '--memory-leak-check'], flags_del=['--unsigned-overflow-check'], solver='--sat-solver cadical',
+                   bound='a pending header line + one further complete line of 1..N bytes (quick 4, thorough 6) over all byte values (blank line, new header line, folded line, junk)',
+                   sub='ownership of the pending header line in %s: whatever the header processor answers (it fails when one of its allocations fails) and whichever allocation of the state function fails, '
+                       'the pending line is freed exactly once by the state function or by the teardown (what htp_connp_destroy does with the field) - no dangling pointer, no double free, no leak' % fn,
+                   assumes=['cfg->process_*_header replaced by a stub with an arbitrary answer; the headers transition replaced by a stub with an arbitrary answer', 'bstr_dup_mem / bstr_add_mem replaced by constant-capacity models inside this TU',
+                            'no native replay (the failing allocation pattern is not reproduced natively)']))
